@@ -20,6 +20,7 @@ func runC03(ctx *RunCtx) error {
 		maxPaths = 200000
 	}
 	totalGo, totalGL, queries := 0, 0, 0
+	nrej := 0
 	for _, p := range gen.Concurrent(ctx.TierN()) {
 		if err := d.WritePackage(p); err != nil {
 			return err
@@ -45,6 +46,11 @@ func runC03(ctx *RunCtx) error {
 			rejected := false
 			for _, e := range tr.Errors {
 				if e.File == c.File && e.Line >= c.FromLine && e.Line <= c.ToLine {
+					rejected = true
+					if c.Reject == "may" { // look-alike: rejection is one of the two allowed outcomes
+						nrej++
+						break
+					}
 					ctx.addTVViolation(p, &c, "accepted", fmt.Sprintf("concurrent subset program rejected: [%s] %s", e.Category, e.Message), tr, nil)
 					rejected = true
 					break
@@ -77,6 +83,7 @@ func runC03(ctx *RunCtx) error {
 			}
 		}
 	}
+	ctx.Extra["lookalikes_rejected"] = nrej
 	ctx.Extra["go_interleavings"] = totalGo
 	ctx.Extra["gooselang_interleavings"] = totalGL
 	ctx.Extra["outcome_queries"] = queries
